@@ -47,6 +47,20 @@ func (t tasks) Remove(task *taskInfo) tasks {
 	return t
 }
 
+// without returns a copy of t that does not contain task. Unlike Remove it
+// does not rely on task.Index, which every goroutine that picks the task
+// overwrites with the position in its own list, and it leaves alone the
+// backing array that the per-height goroutines of one download job share.
+func (t tasks) without(task *taskInfo) tasks {
+	nt := make(tasks, 0, len(t))
+	for _, x := range t {
+		if x != task {
+			nt = append(nt, x)
+		}
+	}
+	return nt
+}
+
 func (t tasks) Sort() tasks {
 	sort.Sort(t)
 	return t
